@@ -8,6 +8,96 @@
 		__CPROVER_assume(g_free_calls < ((size_t) 1 << 40) && g_alloc_ok < ((size_t) 1 << 40)); \
 		VP_HAVOC_PROTO(); VP_HAVOC_RR(); VP_HAVOC_SYNC();    \
 	} while (0)
-void h_rep0_pipe_recv_cb(void) { void *arg; VP_HAVOC_GHOSTS(); rep0_pipe_recv_cb(arg); VP_CANARY(); }
-void h_rep0_ctx_send(void) { void *arg; nni_aio *aio; VP_HAVOC_GHOSTS(); rep0_ctx_send(arg, aio); VP_CANARY(); }
-void h_rep0_ctx_recv(void) { void *arg; nni_aio *aio; VP_HAVOC_GHOSTS(); rep0_ctx_recv(arg, aio); VP_CANARY(); }
+/* ---- harness-built state: objects with nondeterministic contents, lists linked with plain C ---- */
+static void vp_list_init(nni_list *l, size_t off) { l->ll_offset = off; l->ll_head.ln_next = &l->ll_head; l->ll_head.ln_prev = &l->ll_head; }
+static void vp_list_add(nni_list *l, nni_list_node *n)
+{
+	n->ln_prev = l->ll_head.ln_prev; n->ln_next = &l->ll_head;
+	n->ln_prev->ln_next = n; l->ll_head.ln_prev = n;
+}
+#define VP_NEW(T, v) T *v = malloc(sizeof(T)); __CPROVER_assume(v != NULL)
+#ifndef REP_RQ
+#define REP_RQ 0
+#endif
+#ifndef REP_RP
+#define REP_RP 0
+#endif
+void h_rep0_pipe_recv_cb(void)
+{
+	VP_HAVOC_GHOSTS();
+	VP_NEW(rep0_pipe, p); VP_NEW(rep0_sock, s);
+	p->rep = s; s->ctx.sock = s; g_sock = s;
+	p->rnode.ln_next = NULL; p->rnode.ln_prev = NULL;
+	vp_list_init(&s->recvq, offsetof(rep0_ctx, rqnode));
+	vp_list_init(&s->recvpipes, offsetof(rep0_pipe, rnode));
+	g_rq_shape = REP_RQ; g_rp_shape = REP_RP;
+#if REP_RQ >= 1
+#if defined(REP_C1M) && REP_C1M == 1
+	rep0_ctx *c1 = &s->ctx; g_c1_master = true;
+#else
+	VP_NEW(rep0_ctx, c1); c1->sock = s; g_c1_master = false;
+#endif
+	g_c1 = c1; vp_list_add(&s->recvq, &c1->rqnode);
+#endif
+#if REP_RQ == 2
+	VP_NEW(rep0_ctx, c2); c2->sock = s; g_c2 = c2; vp_list_add(&s->recvq, &c2->rqnode);
+#endif
+#if REP_RP == 1
+	VP_NEW(rep0_pipe, p1); p1->rep = s; g_p1 = p1; vp_list_add(&s->recvpipes, &p1->rnode);
+#endif
+	rep0_pipe_recv_cb(p);
+	VP_CANARY();
+}
+#ifndef REP_SQ
+#define REP_SQ 0
+#endif
+#ifndef REP_HAS
+#define REP_HAS 0
+#endif
+/* socket + the context under contract (the socket's own one or a separate object) */
+#if defined(REP_C1M) && REP_C1M == 1
+#define VP_MK_CTX() VP_NEW(rep0_sock, s); s->ctx.sock = s; g_sock = s; rep0_ctx *ctx = &s->ctx
+#else
+#define VP_MK_CTX() VP_NEW(rep0_sock, s); g_sock = s; VP_NEW(rep0_ctx, ctx); ctx->sock = s
+#endif
+void h_rep0_ctx_send(void)
+{
+	nni_aio *aio;
+	VP_HAVOC_GHOSTS();
+	VP_MK_CTX();
+#if REP_HAS == 1
+	VP_NEW(rep0_pipe, tp); tp->rep = s; g_rr.idm_val = tp; g_rr.idm_has = true;
+	vp_list_init(&tp->sendq, offsetof(rep0_ctx, sqnode));
+#if REP_SQ == 1
+	VP_NEW(rep0_ctx, c2); c2->sock = s; g_c2 = c2; vp_list_add(&tp->sendq, &c2->sqnode);
+#endif
+#endif
+	rep0_ctx_send(ctx, aio);
+	VP_CANARY();
+}
+void h_rep0_ctx_recv(void)
+{
+	nni_aio *aio;
+	VP_HAVOC_GHOSTS();
+	VP_MK_CTX();
+	vp_list_init(&s->recvq, offsetof(rep0_ctx, rqnode));
+	vp_list_init(&s->recvpipes, offsetof(rep0_pipe, rnode));
+#if REP_RP == 0
+#if REP_RQ == 0
+	ctx->rqnode.ln_next = NULL; ctx->rqnode.ln_prev = NULL;
+#elif REP_RQ == 1
+	ctx->rqnode.ln_next = NULL; ctx->rqnode.ln_prev = NULL;
+	VP_NEW(rep0_ctx, c2); c2->sock = s; g_c2 = c2; vp_list_add(&s->recvq, &c2->rqnode);
+#else
+	vp_list_add(&s->recvq, &ctx->rqnode);
+#endif
+#else
+	ctx->rqnode.ln_next = NULL; ctx->rqnode.ln_prev = NULL;
+	VP_NEW(rep0_pipe, p1); p1->rep = s; g_p1 = p1; vp_list_add(&s->recvpipes, &p1->rnode);
+#if REP_RP == 2
+	VP_NEW(rep0_pipe, p2); p2->rep = s; g_p2 = p2; vp_list_add(&s->recvpipes, &p2->rnode);
+#endif
+#endif
+	rep0_ctx_recv(ctx, aio);
+	VP_CANARY();
+}
